@@ -32,7 +32,7 @@ def initR (hdr : List String) : RState :=
     | some "post" => CountMode.post
     | _ => CountMode.off
   let c : Cfg := { cap := nat "cap", nthreads := nat "threads", batch := nat "batch", count := count, mode := mode, poolCap := nat "pool" }
-  { c := c, s := State.init c, l2 := nat "L2" == 1 }
+  { c := c, s := State.initAt c (nat "base"), l2 := nat "L2" == 1 }
 
 def showPc (p : Pc) : String := reprStr p
 
